@@ -28,10 +28,18 @@ RULE = ("case = (first event kind(s), tolerance, transform) with every continuat
 ASSUMPTIONS = ["user-domain and optimizer-domain violations of a synthetic result agree about feasibility"]
 EXHAUSTIVE = {"quick": True, "thorough": True}
 BOUNDS = {"quick": {"history_length": 3}, "thorough": {"history_length": 4}}
-REQUIRED = {"quick": {"histories": 300000, "states_compared": 1500000, "nan_first_histories": 20000, "flip_histories": 100000, "basic_optimizer_runs": 120, "basic_optimizer_scripted_runs": 25, "basic_results_with_violation_between_default_and_requested_tolerance": 30, "__nontrivial__": 200},
-            "thorough": {"histories": 15000000, "states_compared": 100000000, "nan_first_histories": 1000000, "flip_histories": 5000000, "basic_optimizer_runs": 1200, "basic_optimizer_scripted_runs": 250, "basic_results_with_violation_between_default_and_requested_tolerance": 300, "__nontrivial__": 2000}}
+REQUIRED = {"quick": {"histories": 300000, "states_compared": 1500000, "nan_first_histories": 20000, "flip_histories": 100000, "basic_optimizer_runs": 120, "cases_with_nearly_tied_objectives": 200, "basic_optimizer_scripted_runs": 25, "basic_results_with_violation_between_default_and_requested_tolerance": 30, "__nontrivial__": 200},
+            "thorough": {"histories": 15000000, "states_compared": 100000000, "nan_first_histories": 1000000, "flip_histories": 5000000, "basic_optimizer_runs": 1200, "cases_with_nearly_tied_objectives": 8000, "basic_optimizer_scripted_runs": 250, "basic_results_with_violation_between_default_and_requested_tolerance": 300, "__nontrivial__": 2000}}
 
-OBJ = [float("-inf"), 0.0, 0.0, float("inf"), float("nan")]      # infinitely good, a tie at exactly zero, infinitely bad (still a value), undefined
+# two objective alphabets: {infinitely good, a tie at exactly zero, infinitely bad (still a value), undefined} and {three values
+# within 2e-10 relative of each other with an exact tie among them - every strictly lower value is an improvement -, undefined}
+ALPHABETS = [[float("-inf"), 0.0, 0.0, float("inf"), float("nan")], [1.0 - 2e-10, 1.0 - 1e-10, 1.0 - 1e-10, 1.0, float("nan")]]
+OBJ = ALPHABETS[0]
+
+
+def _use_alphabet(k):
+    global OBJ  # noqa: PLW0603
+    OBJ = ALPHABETS[k]
 FEAS = ["ok", "v0.1", "v2", "noinfo"]
 LETTERS = [("f", o, f) for o in range(5) for f in FEAS] + [("nofunc", None, None), ("grad", None, None)]
 EVENTS = [(src, l) for src in ("tracked", "other") for l in LETTERS]
@@ -43,11 +51,12 @@ def cases(tier, seed):
     for ti in range(len(TOLS)):
         for flip in (False, True):
             for e0 in range(len(EVENTS)):
-                if L >= 4:
-                    for e1 in range(len(EVENTS)):
-                        yield {"mode": "exhaustive", "tol": ti, "flip": flip, "prefix": [e0, e1], "L": L}
-                else:
-                    yield {"mode": "exhaustive", "tol": ti, "flip": flip, "prefix": [e0], "L": L}
+                for alpha in range(len(ALPHABETS)):
+                    if L >= 4:
+                        for e1 in range(len(EVENTS)):
+                            yield {"mode": "exhaustive", "tol": ti, "flip": flip, "prefix": [e0, e1], "L": L, "alphabet": alpha}
+                    else:
+                        yield {"mode": "exhaustive", "tol": ti, "flip": flip, "prefix": [e0], "L": L, "alphabet": alpha}
     for i in range(60 if tier == "quick" else 1500):
         yield {"mode": "sampled", "i": i}
     for i in range(200 if tier == "quick" else 2000):
@@ -179,6 +188,7 @@ def run_case(case, obs):
         for _ in range(300):
             tol = TOLS[int(rng.integers(len(TOLS)))]
             flip = bool(rng.random() < 0.5)
+            _use_alphabet(int(rng.integers(len(ALPHABETS))))
             hist = []
             for _k in range(int(rng.integers(4, 9))):
                 src, _l = EVENTS[int(rng.integers(len(EVENTS)))]
@@ -192,6 +202,9 @@ def run_case(case, obs):
             obs.nontrivial("sampled", case["i"])
         return
     tol, flip, L = TOLS[case["tol"]], case["flip"], case["L"]
+    _use_alphabet(case.get("alphabet", 0))
+    if case.get("alphabet"):
+        obs.count("cases_with_nearly_tied_objectives")
     pre = case["prefix"]
     any_nontrivial = False
     for rest in itertools.product(range(len(EVENTS)), repeat=L - len(pre)):
@@ -205,7 +218,7 @@ def run_case(case, obs):
         any_nontrivial |= _run_history(obs, ctx, hist, tol, flip)
     if any_nontrivial:
         obs.nontrivial(case)
-    obs.sample({"tolerance": tol, "sign_flip_transform": flip, "first_events": [EVENTS[e] for e in pre], "length": L})
+    obs.sample({"tolerance": tol, "sign_flip_transform": flip, "objective_alphabet": OBJ, "first_events": [EVENTS[e] for e in pre], "length": L})
 
 
 def _basic(case, obs):
